@@ -354,4 +354,59 @@ theorem resolver_key_without_model_id_mixes_models :
     ResolverKeys.dsW ⟨[1], [11]⟩ = some 101 :=
   ResolverKeys.drop_model_leaks
 
+/-! ## sqlite `busyRetry`: a write reports success only if the statement ran -/
+
+/-- outcome of one attempt of the wrapped statement -/
+inductive Attempt where
+  | done | busy | failed
+  deriving DecidableEq, Repr
+
+/-- `busyRetry(fn)`: attempts in order; `nil` on the first success, a non-busy error at once, the busy error once
+`maxRetries` retries are used up.  `some true` = the function returned nil; `none` = the attempt list ran out. -/
+def busyRetry : Nat → List Attempt → Option Bool
+  | _, [] => none
+  | _, .done :: _ => some true
+  | _, .failed :: _ => some false
+  | 0, .busy :: _ => some false
+  | n + 1, .busy :: rest => busyRetry n rest
+
+/-- **Reported success implies an applied statement**: when `busyRetry` returns nil some attempt succeeded and
+every earlier attempt was a busy error — for every retry budget and every sequence of outcomes. -/
+theorem busyRetry_success_sound (n : Nat) (xs : List Attempt) (h : busyRetry n xs = some true) :
+    ∃ k : Nat, xs[k]? = some Attempt.done ∧ ∀ j : Nat, j < k → xs[j]? = some Attempt.busy := by
+  induction xs generalizing n with
+  | nil => simp [busyRetry] at h
+  | cons a rest ih =>
+    cases a with
+    | done => exact ⟨0, by simp, by intro j hj; omega⟩
+    | failed => simp [busyRetry] at h
+    | busy =>
+      cases n with
+      | zero => simp [busyRetry] at h
+      | succ n =>
+        simp only [busyRetry] at h
+        obtain ⟨k, hk, hb⟩ := ih n h
+        refine ⟨k + 1, by simpa using hk, ?_⟩
+        intro j hj
+        cases j with
+        | zero => simp
+        | succ j => simpa using hb j (by omega)
+
+/-- an all-busy run never reports success -/
+theorem busyRetry_all_busy (n : Nat) (xs : List Attempt) (hb : ∀ a ∈ xs, a = Attempt.busy) : busyRetry n xs ≠ some true := by
+  intro h
+  obtain ⟨k, hk, _⟩ := busyRetry_success_sound n xs h
+  have := hb _ (List.mem_of_getElem? hk)
+  cases this
+
+example : busyRetry 10 [.busy, .busy, .done] = some true ∧ busyRetry 1 [.busy, .busy, .done] = some false
+    ∧ busyRetry 10 (List.replicate 11 .busy) = some false := by decide
+
+def expectedBusyRetryBody : String :=
+  "{ const maxRetries = 10 for retries := 0; ; retries++ { err := fn() if err == nil { return nil } if isBusyError(err) { if retries < maxRetries { continue } return fmt.Errorf(\"sqlite busy error after %d retries: %w\", maxRetries, err) } return err } }"
+
+set_option maxRecDepth 100000 in
+/-- the control skeleton of sqlite.busyRetry is the one `busyRetry` models (nil only from `err == nil`) -/
+theorem tie_busy_retry : (Gen.Assertions.sqliteBusyRetryBody == expectedBusyRetryBody) = true := by decide
+
 end OpenFGAVerif.C31
